@@ -14,11 +14,12 @@ COMMON_TRUSTED = [
     "State<T>::{collect_header, collect_body}; the handshake: HandshakeState::process; the caller's side of a call: "
     "IoLoopHandle::{send, recv, check_recv_for_error, call_message, call_nowait, get, consume}; the body splitter: "
     "ChannelHandle::send_content; the confirm smoother: ConfirmSmoother::{process, new_iter}, Iter::{next, drop}; the "
-    "channel table: ChannelSlots::{insert, insert_unused_channel_id, remove}; the write loop: Inner::write_to_stream); the meaning given to the Rust subsets is stated in those files and trusted; "
+    "channel table: ChannelSlots::{insert, insert_unused_channel_id, remove}; the write loop: Inner::write_to_stream; the "
+    "frame buffer: Inner::read_from of src/frame_buffer.rs); the meaning given to the Rust subsets is stated in those files and trusted; "
     "the translations are proved equal to the hand-written models (C15_source_is_model, C17_fire_source_is_model, "
     "C02_limit_source_is_model, C08_seal_source_is_model, C03_source_is_model, C16_process_source_is_model, C04_call_source_is_model, C02_send_content_source_is_model, C14_next_source_is_model / "
     "C14_drop_source_is_model / C14_process_source_is_model, C10_insert_some_source_is_model / C10_insert_none_source_is_model / "
-    "C10_remove_source_is_model, C01_write_source_is_model)",
+    "C10_remove_source_is_model, C01_write_source_is_model, C06_read_from_source_is_model)",
     "no extraction is used: the model is evaluated by the kernel's VM",
 ]
 
